@@ -32,7 +32,7 @@ Theorem C11_no_relay_on_bad_upstream :
   forall (is_ip_literal : bytes -> bool) (connect : bytes -> N -> option pyexn)
          (handshake : wrap_call -> hs_result) (openssl_run : openssl_cmd -> run_result)
          (client_flush : bytes -> flush_result) (client_handshake : bytes -> bytes -> option pyexn)
-         (PS RS : Type) (pipeline_step : PS -> bytes -> option (PS * list bytes))
+         (PS RS : Type) (pipeline_step : PS -> bytes -> (PS * list bytes) + pipe_failure)
          (response_step : RS -> bytes -> option RS)
          (chain_ok : option bytes -> bool) (name_ok : bytes -> bool)
          (fl : flags) (host h : bytes) (port : N) (answers : list bool) (fs0 : list bytes)
@@ -59,7 +59,7 @@ Theorem C11_no_relay_when_handshake_raises :
   forall (is_ip_literal : bytes -> bool) (connect : bytes -> N -> option pyexn)
          (handshake : wrap_call -> hs_result) (openssl_run : openssl_cmd -> run_result)
          (client_flush : bytes -> flush_result) (client_handshake : bytes -> bytes -> option pyexn)
-         (PS RS : Type) (pipeline_step : PS -> bytes -> option (PS * list bytes))
+         (PS RS : Type) (pipeline_step : PS -> bytes -> (PS * list bytes) + pipe_failure)
          (response_step : RS -> bytes -> option RS)
          (fl : flags) (host h : bytes) (port : N) (answers : list bool) (fs0 : list bytes)
          (p0 : PS) (r0 : RS) (evs : list event) (e : pyexn),
@@ -85,7 +85,7 @@ Theorem C11_tls_only_after_verified_handshake :
   forall (is_ip_literal : bytes -> bool) (connect : bytes -> N -> option pyexn)
          (handshake : wrap_call -> hs_result) (openssl_run : openssl_cmd -> run_result)
          (client_flush : bytes -> flush_result) (client_handshake : bytes -> bytes -> option pyexn)
-         (PS RS : Type) (pipeline_step : PS -> bytes -> option (PS * list bytes))
+         (PS RS : Type) (pipeline_step : PS -> bytes -> (PS * list bytes) + pipe_failure)
          (response_step : RS -> bytes -> option RS)
          (fl : flags) (host : bytes) (port : N) (answers : list bool) (fs0 : list bytes)
          (p0 : PS) (r0 : RS) (evs : list event),
@@ -101,7 +101,7 @@ Theorem C11_tls_only_for_good_origin :
   forall (is_ip_literal : bytes -> bool) (connect : bytes -> N -> option pyexn)
          (handshake : wrap_call -> hs_result) (openssl_run : openssl_cmd -> run_result)
          (client_flush : bytes -> flush_result) (client_handshake : bytes -> bytes -> option pyexn)
-         (PS RS : Type) (pipeline_step : PS -> bytes -> option (PS * list bytes))
+         (PS RS : Type) (pipeline_step : PS -> bytes -> (PS * list bytes) + pipe_failure)
          (response_step : RS -> bytes -> option RS)
          (chain_ok : option bytes -> bool) (name_ok : bytes -> bool)
          (fl : flags) (host : bytes) (port : N) (answers : list bool) (fs0 : list bytes)
@@ -127,7 +127,7 @@ Theorem C11_verify_policy :
   forall (is_ip_literal : bytes -> bool) (connect : bytes -> N -> option pyexn)
          (handshake : wrap_call -> hs_result) (openssl_run : openssl_cmd -> run_result)
          (client_flush : bytes -> flush_result) (client_handshake : bytes -> bytes -> option pyexn)
-         (PS RS : Type) (pipeline_step : PS -> bytes -> option (PS * list bytes))
+         (PS RS : Type) (pipeline_step : PS -> bytes -> (PS * list bytes) + pipe_failure)
          (response_step : RS -> bytes -> option RS)
          (fl : flags) (host : bytes) (port : N) (answers : list bool) (fs0 : list bytes)
          (p0 : PS) (r0 : RS) (evs : list event),
@@ -164,7 +164,7 @@ Theorem C11_optout_is_tunnel :
   forall (is_ip_literal : bytes -> bool) (connect : bytes -> N -> option pyexn)
          (handshake : wrap_call -> hs_result) (openssl_run : openssl_cmd -> run_result)
          (client_flush : bytes -> flush_result) (client_handshake : bytes -> bytes -> option pyexn)
-         (PS RS : Type) (pipeline_step : PS -> bytes -> option (PS * list bytes))
+         (PS RS : Type) (pipeline_step : PS -> bytes -> (PS * list bytes) + pipe_failure)
          (response_step : RS -> bytes -> option RS)
          (fl : flags) (host h : bytes) (port : N) (answers : list bool) (fs0 : list bytes)
          (p0 : PS) (r0 : RS) (evs : list event),
@@ -192,7 +192,7 @@ Theorem C11_cert_names_host :
   forall (is_ip_literal : bytes -> bool) (connect : bytes -> N -> option pyexn)
          (handshake : wrap_call -> hs_result) (openssl_run : openssl_cmd -> run_result)
          (client_flush : bytes -> flush_result) (client_handshake : bytes -> bytes -> option pyexn)
-         (PS RS : Type) (pipeline_step : PS -> bytes -> option (PS * list bytes))
+         (PS RS : Type) (pipeline_step : PS -> bytes -> (PS * list bytes) + pipe_failure)
          (response_step : RS -> bytes -> option RS)
          (fl : flags) (host : bytes) (port : N) (answers : list bool) (fs0 : list bytes)
          (p0 : PS) (r0 : RS) (evs : list event),
@@ -222,7 +222,7 @@ Theorem C11_cert_cache :
   forall (is_ip_literal : bytes -> bool) (connect : bytes -> N -> option pyexn)
          (handshake : wrap_call -> hs_result) (openssl_run : openssl_cmd -> run_result)
          (client_flush : bytes -> flush_result) (client_handshake : bytes -> bytes -> option pyexn)
-         (PS RS : Type) (pipeline_step : PS -> bytes -> option (PS * list bytes))
+         (PS RS : Type) (pipeline_step : PS -> bytes -> (PS * list bytes) + pipe_failure)
          (response_step : RS -> bytes -> option RS)
          (fl : flags) (host : bytes) (port : N) (answers : list bool) (fs0 : list bytes)
          (p0 : PS) (r0 : RS) (evs : list event),
@@ -249,12 +249,14 @@ Print Assumptions C11_cert_cache.
    only plaintext the client ever received is (a prefix of) the CONNECT reply - the client's byte stream
    is K200 followed by the origin's bytes.  As above the event list may contain short writes and would-block
    answers (SSLWantWriteError on either TLS send, SSLWantReadError on either recv) at any position:
-   the exchange stays established and not a byte is lost, duplicated or reordered. *)
+   the exchange stays established and not a byte is lost, duplicated or reordered.
+   The bookkeeping response parser ([response_step]) is arbitrary: it may raise on any origin chunk (the
+   former premise [responses_ok] is gone - since fix ba95ac6 the code relays the chunk regardless). *)
 Theorem C11_intercepted_exchange_partial :
   forall (is_ip_literal : bytes -> bool) (connect : bytes -> N -> option pyexn)
          (handshake : wrap_call -> hs_result) (openssl_run : openssl_cmd -> run_result)
          (client_flush : bytes -> flush_result) (client_handshake : bytes -> bytes -> option pyexn)
-         (PS RS : Type) (pipeline_step : PS -> bytes -> option (PS * list bytes))
+         (PS RS : Type) (pipeline_step : PS -> bytes -> (PS * list bytes) + pipe_failure)
          (response_step : RS -> bytes -> option RS)
          (fl : flags) (host : bytes) (port : N) (answers : list bool) (fs0 : list bytes)
          (p0 : PS) (r0 : RS) (evs : list event) (outs : list bytes),
@@ -265,7 +267,6 @@ Theorem C11_intercepted_exchange_partial :
     cl (ps h1) = ClTls ->
     Forall (engaged_at fl) evs -> Forall benign evs ->
     pipeline_outs pipeline_step p0 (client_chunks evs) = Some outs ->
-    responses_ok response_step r0 (upstream_chunks evs) = true ->
     established hf /\
     exists w0 wc,
       cl_wire (ps hf) = w0 ++ wc /\ plain_wire w0 /\ tls_wire wc /\
@@ -274,6 +275,64 @@ Theorem C11_intercepted_exchange_partial :
       concat (map snd w0) ++ concat (map snd wc) ++ concat (cl_buf (ps hf)) = K200 ++ concat (upstream_chunks evs).
 Proof. exact intercepted_exchange. Qed.
 Print Assumptions C11_intercepted_exchange_partial.
+
+(* ---------------------------------------------------------------- failure branches of the relay callbacks *)
+(* read_from_descriptors: whatever the bookkeeping response parser does with an origin chunk - digest it or
+   raise (e.g. a malformed status line or header block inside the TLS session) - the chunk is queued for the
+   client unmodified behind what is already queued; mode, escaped exception, wires, upstream buffer and the
+   request pipeline are untouched.  For EVERY response_step, while the handler still reads the upstream. *)
+Theorem C11_response_chunk_relayed_whatever_the_parser :
+  forall (PS RS : Type) (pipeline_step : PS -> bytes -> (PS * list bytes) + pipe_failure)
+         (response_step : RS -> bytes -> option RS)
+         (fl : flags) (h : hstate PS RS) (a : list bool) (raw : bytes),
+    mode h = Running \/ mode h = MustFlush -> up_fd_valid (up (ps h)) = true ->
+    let h' := step PS RS pipeline_step response_step fl h (UpstreamData a raw) in
+    cl_buf (ps h') = cl_buf (ps h) ++ [raw] /\ mode h' = mode h /\ escaped h' = escaped h /\
+    cl_wire (ps h') = cl_wire (ps h) /\ up_buf (ps h') = up_buf (ps h) /\ up_wire (ps h') = up_wire (ps h) /\
+    pipe h' = pipe h.
+Proof. exact response_chunk_relayed_whatever_the_parser. Qed.
+Print Assumptions C11_response_chunk_relayed_whatever_the_parser.
+
+(* on_client_data: the parser of decrypted follow-up requests raises HttpProtocolException (garbage inside
+   the TLS session), possibly after queueing [outs] for the origin.  Nothing escapes handle_events and nothing
+   pending for the client is lost: with output pending the handler stops reading the client (further client
+   data is ignored), and the next complete flush delivers every pending chunk - inside the client's TLS
+   session when there is one - and only then closes; with nothing pending it closes at once. *)
+Theorem C11_protocol_exception_delivers_pending :
+  forall (PS RS : Type) (pipeline_step : PS -> bytes -> (PS * list bytes) + pipe_failure)
+         (response_step : RS -> bytes -> option RS)
+         (fl : flags) (h : hstate PS RS) (a : list bool) (raw : bytes) (outs : list bytes),
+    mode h = Running -> up (ps h) <> UpNone -> tls_intercept_enabled_ fl a = true ->
+    pipeline_step (pipe h) raw = inr (PipeProtocol outs) ->
+    let h1 := step PS RS pipeline_step response_step fl h (ClientData a raw) in
+    escaped h1 = escaped h /\ cl_buf (ps h1) = cl_buf (ps h) /\ cl_wire (ps h1) = cl_wire (ps h) /\
+    up_buf (ps h1) = up_buf (ps h) ++ outs /\ up_wire (ps h1) = up_wire (ps h) /\
+    (cl_buf (ps h) = [] -> mode h1 = Closed) /\
+    (cl_buf (ps h) <> [] ->
+       mode h1 = MustFlush /\
+       step PS RS pipeline_step response_step fl h1 (ClientData a raw) = h1 /\
+       (cl (ps h) <> ClDead ->
+        let h2 := step PS RS pipeline_step response_step fl h1 FlushClient in
+        mode h2 = Closed /\ escaped h2 = escaped h /\ cl_buf (ps h2) = [] /\
+        cl_wire (ps h2) = cl_wire (ps h) ++ map (fun d => (is_tls_cl (cl (ps h)), d)) (cl_buf (ps h)))).
+Proof. exact protocol_exception_delivers_pending. Qed.
+Print Assumptions C11_protocol_exception_delivers_pending.
+
+(* non-vacuity of the two: an established interception in which the origin's chunk makes the response parser
+   raise and is still queued, then the client sends garbage: must-flush with the chunk pending, no exception
+   escaped; the flush delivers it inside TLS and closes *)
+Example C11_nonvacuous_failure_branches :
+  let sc := mkScript [] None (ChainTrustedBy (bs "/x/trust.pem")) [bs "example.com"] None
+                     (Some [(bs "commonName", bs "up.example")]) RTrue RTrue RTrue (FlushSent 39) None
+                     [(bs "request-1", [bs "request-1"])] [bs "GARBAGE"] [bs "bad-response"] in
+  let evs := [ClientData [true] (bs "request-1"); FlushUpstream; UpstreamData [true] (bs "bad-response");
+              ClientData [true] (bs "GARBAGE")] in
+  let h1 := sim_run sc ex_flags (bs "example.com") 443 [true] [] evs in
+  let h2 := sim_run sc ex_flags (bs "example.com") 443 [true] [] (evs ++ [FlushClient]) in
+  mode h1 = MustFlush /\ escaped h1 = None /\ cl_buf (ps h1) = [bs "bad-response"] /\ cl (ps h1) = ClTls /\
+  mode h2 = Closed /\ escaped h2 = None /\ channel true (cl_wire (ps h2)) = bs "bad-response" /\
+  channel true (up_wire (ps h2)) = bs "request-1".
+Proof. vm_compute. repeat split; reflexivity. Qed.
 
 (* ---------------------------------------------------------------- the finite outcome table *)
 (* every combination of the enumerated oracle outcomes x flag settings x plugin answers x cache states,
